@@ -13,6 +13,24 @@ pub fn extra_subcommand(name: &str, _args: &[String]) -> Option<i32> {
                                   "parsed": PARSED_METHODS, "special": SPECIAL_METHODS}));
             Some(0)
         }
+        "cargo-cb" => {
+            // generate with bindgen::CargoCallbacks installed; its cargo: lines go to stdout
+            let mut argv = vec!["bindgen".to_string()];
+            argv.extend(_args.iter().cloned());
+            let (b, _, _) = bindgen::builder_from_flags(argv.into_iter()).expect("flags");
+            let b = b.parse_callbacks(Box::new(bindgen::CargoCallbacks::new()));
+            match b.generate() {
+                Ok(bindings) => {
+                    println!("=====BINDINGS=====");
+                    println!("{}", bindings);
+                    Some(0)
+                }
+                Err(e) => {
+                    eprintln!("{e}");
+                    Some(1)
+                }
+            }
+        }
         _ => None,
     }
 }
@@ -84,9 +102,23 @@ pub fn err_kind(e: &bindgen::BindgenError) -> &'static str {
 /// optional `header_contents`: [[name, contents], ...]; optional `callbacks`:
 /// {"log":bool,"rename":bool,"vouch":bool}; optional `raw_lines`.
 pub fn builder_of_job(job: &Value) -> Result<(bindgen::Builder, Arc<Mutex<Vec<String>>>), String> {
-    let mut args = vec!["bindgen".to_string()];
-    args.extend(strs(job.get("args")));
-    let (mut b, _out, _verbose) = bindgen::builder_from_flags(args.into_iter()).map_err(|e| format!("flags: {e}"))?;
+    let mut b = if job.get("args").is_some() {
+        let mut args = vec!["bindgen".to_string()];
+        args.extend(strs(job.get("args")));
+        bindgen::builder_from_flags(args.into_iter()).map_err(|e| format!("flags: {e}"))?.0
+    } else {
+        bindgen::builder()
+    };
+    if let Some(ops) = job.get("ops").and_then(|o| o.as_array()) {
+        for op in ops {
+            let arr = op.as_array().ok_or("op must be an array")?;
+            let name = arr[0].as_str().ok_or("op name")?;
+            b = crate::builder_ops::apply_op(b, name, &arr[1..])?;
+        }
+    }
+    for a in strs(job.get("clang_args")) {
+        b = b.clang_arg(a);
+    }
     if let Some(hc) = job.get("header_contents").and_then(|v| v.as_array()) {
         for pair in hc {
             let name = pair[0].as_str().unwrap_or("in.h");
@@ -154,7 +186,7 @@ fn gen_job(job: &Value) -> Value {
 pub fn run_job(job: &Value) -> Value {
     let mode = job.get("mode").and_then(|m| m.as_str()).unwrap_or("gen");
     match mode {
-        "gen" => gen_job(job),
+        "gen" | "gen_ops" => gen_job(job),
         "inventory" => {
             let src = job.get("src").and_then(|s| s.as_str()).unwrap_or("");
             match inventory::inventory_of_source(src) {
